@@ -83,7 +83,7 @@ let mut_of (op : string) : mut =
   | ["dig"] -> M_digest
   | ["raw"] -> M_raw
   | ["vfy"] -> M_verify
-  | ["sign"] | ["rsign"] | ["signk"] | ["rsignk"] -> M_sign
+  | ["sign"] | ["rsign"] | ["signk"] | ["rsignk"] | ["signkh"] | ["signkb"] | ["signkw"] | ["signkd"] -> M_sign
   | ["sau"] | ["saui"; _] -> M_sign_and_update
   | ["seq"; i; q] -> M_seq (nat i, z_of q)
   | ["op"; i; prev; vout] -> M_outpoint (nat i, bytes_of_hex prev, z_of vout)
@@ -127,9 +127,13 @@ let session mode tok ops =
   if not (in32 v0) then "ERR build"
   else begin
     let o0 = (match mode with
-      | "api" | "apik" | "apib" -> ob_build_api t.st_version t.st_locktime t.st_segwit false t.st_ins t.st_outs
+      (* fn / fh / fl / fa / fla / fu / fr (fr through the constructor): inputs described without their keys (nothing / public
+         hash / locking script / address / unsigned unlocking script / redeem script);
+         the keys arrive with sign(keys).  What the object serialises and which digests it has once keyed is that of the
+         api path: the construction form is invisible to the model *)
+      | "api" | "apik" | "apib" | "fn" | "fh" | "fl" | "fa" | "fla" | "fu" -> ob_build_api t.st_version t.st_locktime t.st_segwit false t.st_ins t.st_outs
       | "apikr" -> ob_build_api t.st_version t.st_locktime t.st_segwit true t.st_ins t.st_outs
-      | "ctor" -> lib_ctor t.st_version t.st_locktime t.st_segwit t.st_ins t.st_outs
+      | "ctor" | "fr" -> lib_ctor t.st_version t.st_locktime t.st_segwit t.st_ins t.st_outs
       | "parse" -> ob_fresh (ob_fields (ob_build_api t.st_version t.st_locktime t.st_segwit false t.st_ins t.st_outs))
       | _ -> failwith "mode") in
     let o = ref o0 in
